@@ -70,6 +70,16 @@ def run(ctx):
                 cases.append(mk(eng, which, seqs, k, maxc))
                 if n % 4 == 0:
                     cases.append(mk('symdel', which, seqs[:6], k, maxc, seqs2=seqs[4:]))
+    # the zero custom radius with every engine and every distance, whatever the tier and seed: several of the distances vanish between
+    # DIFFERENT strings (length difference, code sums), so "custom distance 0" is not "identical" (seeded change C14-r6m1: a shortcut in
+    # one engine for max_custom_distance == 0)
+    zero = ['CAA', 'CAD', 'ACA', 'CAA', 'CADA', 'CDAA', 'AC', 'CA', 'DAC']
+    for which in range(6):
+        for k in (1, 2):
+            for eng in engines:
+                cases.append(mk(eng, which, zero, k, 0))
+                ctx.count('zero custom radius: %s' % eng)
+            cases.append(mk('symdel', which, zero[:5], k, 0, seqs2=zero[3:]))
     # via the algorithm-mirroring models
     for t in range(8 if ctx.quick else 60):
         which, k, maxc = rng.randrange(6), rng.choice([1, 2]), rng.choice(radii)
